@@ -241,9 +241,7 @@ class TableLineageAnalyzer:
             elif isinstance(column.value, core.ASTColumnNameExpression):  # 直接使用字段的情况
                 standard_column = StandardColumn(column_name=column.value.column_name, column_idx=column_idx)
                 column_idx += 1
-                quote_column = QuoteColumn(table_name=column.value.table_name,
-                                           column_name=column.value.column_name)
-                result.append((standard_column, [quote_column]))
+                result.append((standard_column, toolkit.CurrentNodeUsedQuoteColumn.handle(column.value)))
             else:  # 不是字段名的情况（此时一定不是通配符）
                 standard_column = StandardColumn(column_name=column.value.source(),
                                                  column_idx=column_idx)
